@@ -1,6 +1,7 @@
 """C10 - every pickle step has a definite type."""
 from . import compiler_rules as cr
 from . import matcher_rules as mr
+from . import dialect_rules as dr
 
 META = {
     "level": "other",
@@ -18,3 +19,5 @@ def run(rep):
     mr.rule_keyword_types(rep, "C10.types")
     mr.rule_dialect_triple(rep, "C10.triple")
     cr.rule_input(rep, "C10.isolation")
+    # the table: a step keyword listed under two roles of one dialect is ambiguous (type Unknown); only '* ' may be
+    dr.rule_data(rep, "C10.data")
